@@ -679,6 +679,12 @@ pub fn run_c01(ctx: &Ctx) -> i32 {
                 alphabet.push((Some((ad.b.clone(), vec![("x".into(), 1)], p)), None));
             }
         }
+        // one key removed, written again, removed-and-written in one call, and just looked at:
+        // every message sees exactly what its predecessors left (also after a delete)
+        for writes in [vec![WriteOp::Remove(b"wk".to_vec())], vec![WriteOp::Set(b"wk".to_vec(), b"again".to_vec())], vec![WriteOp::Set(b"wk".to_vec(), b"1".to_vec()), WriteOp::Remove(b"wk".to_vec())], vec![]] {
+            let p = Program { entry: Entry::Execute { sender: ad.rich.clone(), contract: ad.a.clone(), funds: vec![] }, root: 0, nodes: vec![Node { writes, ..Default::default() }] };
+            alphabet.push((Some((ad.a.clone(), vec![], p)), None));
+        }
         alphabet.push((None, Some(Msg::BankSend { to: Target::Addr(ad.poor.clone()), coins: vec![("x".into(), 1)] })));
         alphabet.push((None, Some(Msg::BankSend { to: Target::Addr(ad.poor.clone()), coins: vec![("x".into(), 1000)] })));
         alphabet.push((None, Some(Msg::Delegate { validator: VALIDATOR.into(), denom: "TOKEN".into(), amount: 2 })));
